@@ -1,7 +1,7 @@
 (* C09 — JSONPath syntax: every documented form parses as intended; printing is faithful. *)
 From Coq Require Import List NArith ZArith Bool.
 Import ListNotations.
-From JB Require Import Constants Bytes Num Value TreeOps Path PathParse PathParseProofs PathSafe PathRoundtrip.
+From JB Require Import Constants Bytes Num Value TreeOps Path PathParse PathParseProofs PathSafe PathRoundtrip PathImage.
 Open Scope N_scope.
 
 (* any byte string: an error or a path, never a panic *)
@@ -78,3 +78,28 @@ Proof.
   - vm_compute. reflexivity.
 Qed.
 Print Assumptions C09_roundtrip_float_example.
+
+(* the same in the words of the property: every ACCEPTED path whose names and literals need no quoting or escaping
+   (leaf_path: the conditions of safe_path without any condition on the tree shape) round-trips. This rests on
+   parse_image (every accepted input yields a tree of the parser's shape) and leaf_shape_safe. *)
+Theorem C09_parser_image : forall bs ps, parse_json_path bs = Ok ps -> shape_path ps.
+Proof. exact parse_image. Qed.
+Print Assumptions C09_parser_image.
+
+Theorem C09_accepted_path_round_trips : forall pf okf, (forall b, okf b = true -> path_float_reads_back pf b) ->
+  forall bs ps, parse_json_path bs = Ok ps -> leaf_path okf ps = true -> parse_json_path (show_json_path pf ps) = Ok ps.
+Proof. exact accepted_path_roundtrip. Qed.
+Print Assumptions C09_accepted_path_round_trips.
+
+(* a three-member chain a && b && c is parsed left-nested, printed as (a && b) && c, and comes back left-nested;
+   the input is $?(@.a == 1 && @.b <> "s" && exists($.c[last - 1 to LAST])) with the alternative spellings *)
+Example C09_accepted_chain_example :
+  let text := [36;63;40;64;46;97;32;61;61;32;49;32;38;38;32;64;46;98;32;60;62;32;34;115;34;32;38;38;32;
+               101;120;105;115;116;115;40;36;46;99;91;108;97;115;116;32;45;32;49;32;116;111;32;76;65;83;84;93;41;41] in
+  let ps := [PRoot; PFilter (EBin OAnd (EBin OAnd (EBin OEq (EPaths [PCurrent; PDotField [97]]) (EValue (PVNum (NUInt 1))))
+                                                  (EBin ONe (EPaths [PCurrent; PDotField [98]]) (EValue (PVStr [115]))))
+                                       (EExists [PRoot; PDotField [99]; PIndices [ASlice (ILast (-1)) (ILast 0)]]))] in
+  parse_json_path text = Ok ps /\ leaf_path no_floats ps = true /\
+  parse_json_path (show_json_path (fun _ => []) ps) = Ok ps.
+Proof. vm_compute. repeat split; reflexivity. Qed.
+Print Assumptions C09_accepted_chain_example.
